@@ -192,6 +192,9 @@ fn artefacts(ctx: &Ctx) -> (String, String) {
 			_ => ctx.scale(6_000, 200_000),
 		};
 		certs::run(ctx, prop, &w, n);
+		if prop == Prop::C02 && ctx.replay.as_ref().map_or(true, |r| r.workload == "api-surface") {
+			c02_api_surface(ctx, &pool);
+		}
 		if prop == Prop::C05 {
 			c05_serials(ctx, &pool);
 		}
@@ -572,5 +575,109 @@ fn c04_accepted_characters(ctx: &Ctx) {
 				Err(pn) => ctx.violation("c04:cert-panic", &case, &label, &pn),
 			}
 		}
+	}
+}
+
+/// C02: the convenience entry points and accessors say the same thing as the encoded certificate.
+#[cfg(all(feature = "crypto", feature = "ossl"))]
+fn c02_api_surface(ctx: &Ctx, pool: &[crate::keys::PoolKey]) {
+	use crate::ctx::CaseId;
+	use crate::spec::*;
+	use crate::x509;
+	for i in 0..ctx.scale(200, 5_000) {
+		let case = CaseId::new("api-surface", ctx.seed, i);
+		let mut rng = case.rng();
+		// CertificateParams::new / generate_simple_self_signed: IP literals become iPAddress, the rest dNSName
+		let names: Vec<String> = (0..rng.below(6))
+			.map(|_| match rng.below(4) {
+				0 => gen_ip(&mut rng).to_string(),
+				1 => format!("{}.{}.{}", rng.below(300), rng.below(300), rng.below(300)),
+				_ => gen_host(&mut rng),
+			})
+			.collect();
+		let text = format!("names={:?}", names);
+		ctx.count("eval:api_surface_cases");
+		ctx.distinct(crate::util::fnv64(text.as_bytes()));
+		let want: Vec<String> = {
+			let mut v: Vec<String> = names
+				.iter()
+				.map(|s| match s.parse::<std::net::IpAddr>() {
+					Ok(std::net::IpAddr::V4(a)) => format!("ip:{}", crate::util::hex(&a.octets())),
+					Ok(std::net::IpAddr::V6(a)) => format!("ip:{}", crate::util::hex(&a.octets())),
+					Err(_) => format!("dns:{}", crate::util::hex(s.as_bytes())),
+				})
+				.collect();
+			v.sort();
+			v
+		};
+		let check_sans = |der: &[u8], what: &str| match x509::parse_certificate(der) {
+			Err(e) => ctx.violation("c02:api-surface:undecodable", &case, &text, &format!("{}: {}", what, e)),
+			Ok(v) => {
+				let mut got: Vec<String> = v
+					.exts
+					.iter()
+					.flatten()
+					.find(|e| e.oid == x509::OID_SAN)
+					.and_then(|e| x509::parse_san(&e.value).ok())
+					.map(|n| n.iter().map(gn_key).collect())
+					.unwrap_or_default();
+				got.sort();
+				if got != want {
+					ctx.violation("c02:api-surface:names", &case, &text, &format!("{}: certificate names {:?}, expected {:?}", what, got, want));
+				}
+			},
+		};
+		match crate::guard(|| rcgen::generate_simple_self_signed(names.clone())) {
+			Err(p) => ctx.violation("c02:api-surface:panic", &case, &text, &p),
+			Ok(Err(e)) => ctx.violation("c02:api-surface:refused", &case, &text, &e.to_string()),
+			Ok(Ok(ck)) => {
+				check_sans(ck.cert.der(), "generate_simple_self_signed");
+				// the returned key is the certificate's key
+				if let Ok(v) = x509::parse_certificate(ck.cert.der()) {
+					if v.spki.raw != ck.key_pair.public_key_der() {
+						ctx.violation("c02:api-surface:key", &case, &text, "CertifiedKey.key_pair is not the certificate's subject key");
+					}
+				}
+				let as_ref: &rcgen::CertificateParams = ck.cert.as_ref();
+				if as_ref != ck.cert.params() {
+					ctx.violation("c02:api-surface:as-ref", &case, &text, "AsRef<CertificateParams> differs from params()");
+				}
+			},
+		}
+		if let Ok(Ok(p)) = crate::guard(|| rcgen::CertificateParams::new(names.clone())) {
+			let k = &pool[(i % pool.len() as u64) as usize];
+			let same: &rcgen::CertificateParams = p.as_ref();
+			let _ = same;
+			if let Ok(Ok(c)) = crate::guard(|| p.self_signed(&k.kp)) {
+				check_sans(c.der(), "CertificateParams::new");
+			}
+		}
+		// custom extension accessors report what was put in
+		let oid = gen_custom_oid(&mut rng);
+		let content = gen_der_value(&mut rng);
+		let crit = rng.chance(1, 2);
+		let mut e = rcgen::CustomExtension::from_oid_content(&oid, content.clone());
+		e.set_criticality(crit);
+		if e.criticality() != crit || e.content() != content.as_slice() || e.oid_components().collect::<Vec<_>>() != oid {
+			ctx.violation("c02:api-surface:custom-extension-accessors", &case, &format!("{:?}", oid), "accessors differ from what was set");
+		}
+		// as_remote tells remote from local keys
+		let k = &pool[(i % pool.len() as u64) as usize];
+		if k.kp.as_remote().is_some() != k.is_remote() {
+			ctx.violation("c02:api-surface:as-remote", &case, &k.label, "as_remote() disagrees with how the key was made");
+		}
+		if k.is_remote() && !format!("{:?}", k.kp).contains("Remote") {
+			ctx.count("remote_key_debug_without_marker");
+		}
+	}
+	// RSA generation: an error under ring, a key under aws-lc-rs, never a panic
+	let case = CaseId::new("api-surface", ctx.seed, u64::MAX);
+	match crate::guard(|| rcgen::KeyPair::generate_for(&rcgen::PKCS_RSA_SHA256).map(|k| k.public_key_der().len())) {
+		Err(p) => ctx.violation("c02:api-surface:rsa-generation-panic", &case, "generate_for(PKCS_RSA_SHA256)", &p),
+		Ok(r) => {
+			if r.is_ok() != (crate::BACKEND == "aws") {
+				ctx.violation("c02:api-surface:rsa-generation", &case, "generate_for(PKCS_RSA_SHA256)", &format!("{:?} under {}", r.map_err(|e| e.to_string()), crate::BACKEND));
+			}
+		},
 	}
 }
